@@ -53,11 +53,15 @@ JunkBytes(k) ==
     [] k = "junk_fraghdr" -> <<131, 69>> \o U64(9) \o U64(2) \o <<5, 1, 2>>
     [] k = "junk_badcontrol" -> IF HeaderMode THEN MsgBytes(<<>>, <<VTuple(<<VBin(<<1>>), SmallInt(1)>>)>>) ELSE <<112>> \o Encode(VTuple(<<VBin(<<1>>), SmallInt(1)>>))
     [] k = "junk_empty_tuple" -> IF HeaderMode THEN MsgBytes(<<>>, <<VTuple(<<>>)>>) ELSE <<112>> \o Encode(VTuple(<<>>))
+\* frag2i / frag3i: the frames of the next entry of the history travel between the last two fragments (other traffic between the fragments of a
+\* sequence is what fragmentation is for); the message completes at its last fragment, after whatever the frames in between surfaced
+FragKinds == {"frag2", "frag3", "frag2i", "frag3i"}
+Interleaved == {"frag2i", "frag3i"}
 VARIABLES hist, slots, fragSeen, nfr
 gvars == <<hist, slots, fragSeen, nfr>>
 GInit == hist = <<>> /\ slots = <<>> /\ fragSeen = FALSE /\ nfr = 0 /\ HInit
 Kinds == IF Targeted THEN {"hdr", "hdr_reuse", "hdr_s3", "hdr_reuse_s3"}
-         ELSE IF HeaderMode THEN {"hdr", "hdr_reuse", "hdr_s3", "hdr_reuse_s3", "frag2", "frag3", "tick"} ELSE {"pt", "tick"}
+         ELSE IF HeaderMode THEN {"hdr", "hdr_reuse", "hdr_s3", "hdr_reuse_s3", "frag2", "frag3", "frag2i", "frag3i", "tick"} ELSE {"pt", "tick"}
 MsgIdx == IF Targeted THEN {1, 3, 4} ELSE 1..Len(Msgs)
 DefKinds == {"hdr", "hdr_s3"}
 ReuseKinds == {"hdr_reuse", "hdr_reuse_s3"}
@@ -73,20 +77,30 @@ Step(k, i) == /\ nfr < MaxFrames /\ nfr' = nfr + 1 /\ hist' = Append(hist, <<k, 
               /\ slots' = IF k \in DefKinds THEN Defines(Msgs[i], slots, SegOf(k))
                           ELSE IF k \in JunkKinds /\ HeaderMode /\ ReadHeader(JunkBytes(k), slots)[1] THEN ReadHeader(JunkBytes(k), slots)[2]
                           ELSE slots
-              /\ fragSeen' = (fragSeen \/ k \in {"frag2", "frag3"})
+              /\ fragSeen' = (fragSeen \/ k \in FragKinds)
 \* (targeted histories also put an undecodable header frame between definitions and re-use: the cache must survive it)
 GNext == ((\E k \in Kinds, i \in MsgIdx : Step(k, i)) \/ (\E k \in (IF Targeted THEN {"junk_truncated", "junk_badheader"} ELSE JunkKinds) : Step(k, 0))) /\ UNCHANGED hvars
 GSpec == GInit /\ [][GNext]_<<gvars, hvars>>
 \* frames (bytes) and surfaced results of a finished scenario
-FramesOf(h) == LET f(j) == LET k == h[j][1]  i == h[j][2] IN
+EntryFrames(h, j) == LET k == h[j][1]  i == h[j][2] IN
                   CASE k = "pt" -> <<PT(Msgs[i])>> [] k \in DefKinds -> <<MsgBytes(RefsNewS(Msgs[i], SegOf(k)), Msgs[i])>> [] k \in ReuseKinds -> <<MsgBytes(RefsOldS(Msgs[i], SegOf(k)), Msgs[i])>>
-                    [] k = "frag2" -> Frags(Msgs[i], 2, j) [] k = "frag3" -> Frags(Msgs[i], 3, j) [] k = "tick" -> << <<>> >>
+                    [] k \in {"frag2", "frag2i"} -> Frags(Msgs[i], 2, j) [] k \in {"frag3", "frag3i"} -> Frags(Msgs[i], 3, j) [] k = "tick" -> << <<>> >>
                     [] OTHER -> <<JunkBytes(k)>>
-               IN FoldLeft(LAMBDA acc, j : acc \o f(j), <<>>, [j \in 1..Len(h) |-> j])
-ResultsOf(h) == LET r(j) == LET k == h[j][1]  i == h[j][2] IN
+EntryResults(h, j) == LET k == h[j][1]  i == h[j][2] IN
                   IF k = "tick" THEN <<>> ELSE IF k \in JunkKinds THEN << [k |-> "err", kind |-> k] >>
                   ELSE << [k |-> "msg", kind |-> k, control |-> Msgs[i][1], payload |-> IF Len(Msgs[i]) = 2 THEN <<Msgs[i][2]>> ELSE <<>>] >>
-                IN FoldLeft(LAMBDA acc, j : acc \o r(j), <<>>, [j \in 1..Len(h) |-> j])
+\* lay the history out on the wire: `held` is the last fragment (and the result) of an interleaved entry waiting for the next entry's frames to pass
+RECURSIVE Lay(_, _, _)
+Lay(h, j, held) ==
+  IF j > Len(h) THEN held
+  ELSE LET own == EntryFrames(h, j)  res == EntryResults(h, j)  n == Len(own) IN
+       IF h[j][1] \in Interleaved /\ j < Len(h)
+       THEN LET next == Lay(h, j + 1, [frames |-> <<own[n]>>, results |-> res]) IN
+            [frames |-> SubSeq(own, 1, n - 1) \o held.frames \o next.frames, results |-> held.results \o next.results]
+       ELSE LET next == Lay(h, j + 1, [frames |-> <<>>, results |-> <<>>]) IN
+            [frames |-> own \o held.frames \o next.frames, results |-> res \o held.results \o next.results]
+FramesOf(h) == Lay(h, 1, [frames |-> <<>>, results |-> <<>>]).frames
+ResultsOf(h) == Lay(h, 1, [frames |-> <<>>, results |-> <<>>]).results
 Emit == (nfr' # MaxFrames) \/ PrintT(ToJson([hist |-> hist', header_mode |-> HeaderMode,
                                              frames |-> [j \in 1..Len(FramesOf(hist')) |-> [bytes |-> FramesOf(hist')[j]]], results |-> ResultsOf(hist')]))
 \* spec self-check: the spec's own reader recovers every message from its pass-through and header forms
